@@ -452,6 +452,9 @@ func main() {
 			}
 			r.Sample(c)
 		}
+		if seen["bridge:missing-message"]+seen["bridge:extra-message"] >= 3 {
+			break // every script with a missing message costs a 2 s wait; three witnesses are enough
+		}
 		if k, d, at := run(s); k != "" {
 			seen[k]++
 			if seen[k] <= 2 {
